@@ -181,13 +181,18 @@ def cfgs_barrier(tier):
 
 def cfgs_errors(tier):
     out = []
-    graphs = [(3, []), (3, [(0, 1, "p")]), (3, [(0, 2, "p"), (1, 2, "d")]), (4, [(0, 1, "p"), (2, 3, "p")]), (4, [(0, 3, "p"), (1, 3, "p"), (2, 3, "p")])]
+    graphs = [(3, []), (3, [(0, 1, "p")]), (3, [(0, 2, "p"), (1, 2, "d")]), (4, [(0, 1, "p"), (2, 3, "p")]), (4, [(0, 3, "p"), (1, 3, "p"), (2, 3, "p")]),
+              # one independent call + a call whose completion makes three more ready (work that appears after the limit was hit)
+              (5, [(1, 2, "p"), (1, 3, "p"), (1, 4, "d")])]
     for n, edges in graphs:
         for r in range(1, n + 1):
             for fs in itertools.combinations(range(n), r):
                 for k in (None, 0, 1, 2):
                     for W in (1, 2):
-                        if W == 2 and tier == "quick" and (r > 2 or k == 2):
+                        late_work = n == 5
+                        if W == 2 and tier == "quick" and (r > 2 or k == 2) and not (late_work and 1 not in fs and r >= 3 and k in (0, 1)):
+                            continue
+                        if late_work and tier == "quick" and W == 1 and r > 2:
                             continue
                         kinds = ["exc", "base", "sysexit"]
                         out.append({"n": n, "edges": edges, "output": list(range(n)), "W": W, "sched": "default" if (len(out) % 3) else "random",
